@@ -1275,7 +1275,11 @@ def c16_r(ctx):
                 srcs0 = [simp(x) for x in eb.var_defs(e[1])] or [e]
             else:
                 srcs0 = [e]
+            flat0 = []
             for e2 in srcs0:
+                # one alternative per path (the value a spliced helper returns on each of its exits)
+                flat0.extend(simp(x) for x in e2[2]) if e2[0] == "phi" else flat0.append(e2)
+            for e2 in flat0:
                 if e2[0] == "agg" and e2[3] == "Err":
                     continue
                 if expr_str(e2).startswith("(option::Option::None{})@Some.0"):
